@@ -62,6 +62,7 @@ structure ClassInfo where
   hasDict : Bool             -- some class in the MRO (below `object`) has a `__dict__` slot
   hashable : Bool            -- `cls.__hash__ is not None`
   fields : List FieldInfo
+  hashGenerated : Bool := true   -- `cls.__hash__` is the method `dataclass` generated (not a hand-written one)
 deriving Repr, Inhabited
 
 /-- a module found by walking the package -/
